@@ -398,3 +398,25 @@ func (p *Prog) withHelpers(fn *ssa.Function, depth int) []*ssa.Function {
 	walk(fn, 0)
 	return out
 }
+
+// onlyStore: the local is written by this one store only (no other store to it or to a part of it, not passed on by address).
+func onlyStore(al *ssa.Alloc, st *ssa.Store) bool {
+	for _, ref := range *al.Referrers() {
+		switch r := ref.(type) {
+		case *ssa.Store:
+			if r != st {
+				return false
+			}
+		case *ssa.FieldAddr:
+			for _, r2 := range *r.Referrers() {
+				if ld, ok := r2.(*ssa.UnOp); !ok || ld.Op != token.MUL {
+					return false
+				}
+			}
+		case *ssa.UnOp, *ssa.DebugRef:
+		default:
+			return false
+		}
+	}
+	return true
+}
